@@ -103,6 +103,14 @@ package binary
 //@   invariant 2: rangeindex + 1 > 0 ==> called(writeCompatibilitySerializers)
 //@   iteration 1: a_version_with_changes_gets_its_serializers: old((versionLabel in ns.DefinitionChanges) && len(ns.DefinitionChanges[versionLabel]) > 0) ==> called(writeCompatibilitySerializers)
 
+// C05/C08: a fixed-length vector is a std::array in the generated C++: it already has its size and no `resize`.
+// The element-wise conversion of a changed fixed vector (`int*3` -> `long*3`) may not print one.
+//@ spec func newVec(tc dsl.TypeChange) dsl.Type = dsl.GetUnderlyingType(tc.(*dsl.TypeChangeVectorTypeChanged).TypePair.New)
+//@ spec func fixedVectorTarget(tc dsl.TypeChange) bool = typeof(newVec(tc)) == *dsl.GeneralizedType && newVec(tc).(*dsl.GeneralizedType) != nil && typeof(newVec(tc).(*dsl.GeneralizedType).Dimensionality) == *dsl.Vector && newVec(tc).(*dsl.GeneralizedType).Dimensionality.(*dsl.Vector) != nil && newVec(tc).(*dsl.GeneralizedType).Dimensionality.(*dsl.Vector).Length != nil
+//@ func writeTypeConversion
+//@   property C05,C08
+//@   ensures a_fixed_vector_is_not_resized: typeof(typeChange) == *dsl.TypeChangeVectorTypeChanged && typeChange.(*dsl.TypeChangeVectorTypeChanged) != nil && !write && old(fixedVectorTarget(typeChange)) ==> emittedHere("%s.resize(%s.size());\n") == 0
+
 // C05: when the element type of a vector (or of a stream batch) changed, the generated reader converts element by
 // element. Every element is converted into a temporary of its own, declared and value-initialised inside the body
 // of the generated loop: a conditional element conversion (an optional that is empty, a union case that is skipped)
